@@ -26,7 +26,7 @@ impl Write for Sink {
 
 pub fn values() -> Vec<Value> {
     vec![
-        Value::from(1234567u64), Value::from(-55), Value::from(&[200u8, 100, 7][..]), Value::from(1.5),
+        Value::from(1234567u64), Value::from(-55), Value::from(&[200u8, 100, 7][..]), Value::from(1.5), Value::from(2.0), Value::from(-1e15), Value::keyword("kw"), Value::list(vec![Value::keyword("a"), Value::keyword("bcd")]),
         Value::list(vec![Value::from(1234567u64), Value::from(-55), Value::from(&[200u8, 100][..])]),
         Value::from("a\"b\\c\n\u{1}\u{7f}é"), Value::symbol("sym"), Value::keyword("kw"), Value::from('x'), Value::from('\n'), Value::from('λ'),
         Value::Nil, Value::Null, Value::from(true), Value::from(false),
